@@ -148,6 +148,15 @@ def worker(case, led):
             led.check(abs(e - refe) <= 1e-9 * max(1, abs(refe)), "post:TTNS.expectation:dense_value", "TTNS.expectation", f"{e} vs {refe}", key + ("exp", id(st) == id(a)), f, rep)
             led.check(st.root.parent is None and bt.root.parent is None and H.root.parent is None, "frame:TTNS.expectation:roots_restored", "TTNS.expectation",
                       "expectation left a temporary parent attached to a root", key + ("exp-frame", id(st) == id(a)), f, rep)
+        # the einsum entry point (the only one taking a bra): <bra|O|ket> with the bra conjugated, for real and complex states
+        for lb_, bra_, vbra in (("ket", None, va), ("other", b, vb)):
+            try:
+                e1 = a.expectation1(H) if bra_ is None else a.expectation1(H, bra=bra_)
+                refe = np.vdot(vbra, Hd @ va)
+                led.check(abs(e1 - refe) <= 1e-9 * max(1, abs(refe)), "post:TTNS.expectation1:dense_transition_amplitude", "TTNS.expectation1", f"bra={lb_}: {e1} vs {refe}",
+                          key + ("exp1", lb_), dict(f, complex_state=bool(np.iscomplexobj(va) or np.iscomplexobj(vbra))), rep)
+            except Exception as e:
+                led.check(False, "post:TTNS.expectation1:total", "TTNS.expectation1", f"bra={lb_}: raised {type(e).__name__}: {e}", key + ("exp1", lb_), f, rep)
         t0 = terms[0]
         e = a.expectation(t0)
         refe = np.vdot(va, U.dense_terms(model, [t0]) @ va)
